@@ -9,6 +9,7 @@ mod c16;
 mod c18;
 mod delays;
 mod inject;
+mod live;
 mod shadow;
 
 use pv::{run::main_entry, Ctx, Report, Rng, Spec, Tier};
@@ -57,6 +58,18 @@ fn spec_for(prop: &str, _tier: Tier) -> Option<Spec> {
 			s.assumptions.push("'always' is decided as bounded progress: a stall of 60 s with pending work counts as never".into());
 			s
 		},
+		"C04" => Spec::new(
+			"C04",
+			"exploration",
+			"Threaded half: a case is one 1-5 s history on a btree column (plus a hash column written by the same transactions) with LIVE background workers and seeded delays at the yield hooks. ONE client thread is the only writer, so its ordered model is exact at each of its own calls: point reads, sizes and iterator steps (seek / seek_to_first / seek_to_last / next / prev with direction changes, the iterator kept open across its own commits) are compared with the cursor model of C04 while the workers move the data from the commit overlay through the log overlay into the on-disk tree under it. TWO observer threads iterate the same column meanwhile (full scans in both directions, random walks, re-seeks); each step is recorded {cursor, direction, completed-before, started-after, result} and judged offline against the client's per-key write history (every value carries key index + commit number): the key lies beyond the cursor; its value is a version that was the latest at some moment of the call; every key of the universe between the cursor and the returned key (every key beyond the cursor if the step returned nothing) was absent at some moment of the call. Key universes: 400-1400 dense integers (tree depth >= 2, range insertions / removals merge and split nodes) or 40-160 odd keys (empty key, 253-257 bytes, prefixes of each other); values 20 B - 36 KB. After the history: drop, reopen, every key, full iteration in both directions, pvfsck. evaluations = client calls compared + observer steps judged + final reads; distinct_nontrivial = distinct (key universe, always_flush, delay profile, compression) classes.",
+		)
+		.require("threaded_histories", 8)
+		.require("client_iter_calls", 2000)
+		.require("observer_steps_judged", 50_000)
+		.require("observer_steps_nontrivial_window", 2000)
+		.require("client_iter_after_commit_while_open", 200)
+		.require("tree_depth_ge2", 1)
+		.budget(40, 400),
 		"C11" => Spec::new(
 			"C11",
 			"exploration",
@@ -162,6 +175,7 @@ fn shard(ctx: &Ctx, rep: &mut Report) {
 fn run_one(ctx: &Ctx, rep: &mut Report, case_seed: u64, variant: u64) {
 	match ctx.prop.as_str() {
 		"C02" | "C14" => c02::run_case(ctx, rep, case_seed, variant),
+		"C04" => live::run_case(ctx, rep, case_seed, variant),
 		"C05" => c05::run_case(ctx, rep, case_seed, variant),
 		"C11" => c11::run_case(ctx, rep, case_seed, variant),
 		"C12" => c12::run_case(ctx, rep, case_seed, variant),
